@@ -16,7 +16,9 @@ from . import build
 CFG = {
     "gcc": dict(cxx="g++", flags=["-std=c++17", "-O0", "-g0", "-w", build.GUARD, "-fsanitize=address,undefined", "-fno-sanitize-recover=undefined"]),
     "clang": dict(cxx="clang++", flags=["-std=c++17", "-O0", "-g0", "-w", build.GUARD]),
-    "nostl": dict(cxx="g++", flags=["-std=c++17", "-O0", "-g0", "-w", build.GUARD, "-DNMTOOLS_DISABLE_STL"]),
+    # with sanitizers as well: memory errors of the STL-free containers are otherwise heap-state dependent (a free() of a garbage pointer
+    # showed up only in programs with >= 4 renderings)
+    "nostl": dict(cxx="g++", flags=["-std=c++17", "-O0", "-g0", "-w", build.GUARD, "-DNMTOOLS_DISABLE_STL", "-fsanitize=address,undefined", "-fno-sanitize-recover=undefined"]),
 }
 STL_ONLY_LEAVES = {"std_array", "std_vector"}
 
@@ -391,7 +393,7 @@ def _pg_hash():
 
 
 def _bin_path(text, cfg):
-    key = hashlib.sha256((cfg + "\0" + text + "\0" + build.tree_hash() + "\0" + _pg_hash()).encode()).hexdigest()[:32]
+    key = hashlib.sha256((cfg + "\0" + " ".join(CFG[cfg]["flags"]) + "\0" + text + "\0" + build.tree_hash() + "\0" + _pg_hash()).encode()).hexdigest()[:32]
     return os.path.join(build.BUILD, "pg", key[:2], key)
 
 
